@@ -864,7 +864,7 @@ pub fn run(tier_name: &str, seed: u64) -> i32 {
                 tally.bump("fault_obstacle_placed_on_unchecked_waypoint", 1);
                 tally.evaluations += 1;
                 for f in judge(&g) {
-                    if !seen.insert((f.clause.clone(), f.signature.clone())) {
+                    if !seen.insert((f.clause.clone(), f.signature.clone())) || !tally.first_few(&f.clause, &f.signature, 2) {
                         continue;
                     }
                     tally.bump("raw_failures", 1);
@@ -879,7 +879,7 @@ pub fn run(tier_name: &str, seed: u64) -> i32 {
                 }
             }
             for f in fails {
-                if !seen.insert((f.clause.clone(), f.signature.clone())) {
+                if !seen.insert((f.clause.clone(), f.signature.clone())) || !tally.first_few(&f.clause, &f.signature, 2) {
                     continue;
                 }
                 tally.bump("raw_failures", 1);
